@@ -285,6 +285,9 @@ type StubAuth struct {
 	Start       int64
 	End         int64
 	Valid       bool
+	// Pad: this many filler bytes at the end of the encoding (auths of 128 bytes and more
+	// need a two-byte length prefix inside the tx)
+	Pad int
 }
 
 var _ chain.Auth = (*StubAuth)(nil)
@@ -309,18 +312,28 @@ func (a *StubAuth) Bytes() []byte {
 	b = binary.BigEndian.AppendUint64(b, uint64(a.Start))
 	b = binary.BigEndian.AppendUint64(b, uint64(a.End))
 	if a.Valid {
-		return append(b, 1)
+		b = append(b, 1)
+	} else {
+		b = append(b, 0)
 	}
-	return append(b, 0)
+	for i := 0; i < a.Pad; i++ {
+		b = append(b, 0x5A)
+	}
+	return b
 }
 
 const stubAuthLen = 1 + 2*codec.AddressLen + 8*3 + 1
 
 func UnmarshalStubAuth(b []byte) (chain.Auth, error) {
-	if len(b) != stubAuthLen || b[0] != StubAuthID {
+	if len(b) < stubAuthLen || len(b) > stubAuthLen+4096 || b[0] != StubAuthID {
 		return nil, errors.New("stub auth: bad encoding")
 	}
-	a := &StubAuth{}
+	a := &StubAuth{Pad: len(b) - stubAuthLen}
+	for _, c := range b[stubAuthLen:] {
+		if c != 0x5A {
+			return nil, errors.New("stub auth: bad padding")
+		}
+	}
 	copy(a.SponsorAddr[:], b[1:])
 	copy(a.ActorAddr[:], b[1+codec.AddressLen:])
 	o := 1 + 2*codec.AddressLen
@@ -341,8 +354,10 @@ func UnmarshalStubAuth(b []byte) (chain.Auth, error) {
 type StubAuthFactory struct{ Auth *StubAuth }
 
 func (f *StubAuthFactory) Sign([]byte) (chain.Auth, error) { return f.Auth, nil }
-func (f *StubAuthFactory) MaxUnits() (uint64, uint64)      { return uint64(stubAuthLen), f.Auth.Compute }
-func (f *StubAuthFactory) Address() codec.Address          { return f.Auth.ActorAddr }
+func (f *StubAuthFactory) MaxUnits() (uint64, uint64) {
+	return uint64(len(f.Auth.Bytes())), f.Auth.Compute
+}
+func (f *StubAuthFactory) Address() codec.Address { return f.Auth.ActorAddr }
 
 // Parser parses ProgAction / StubAuth and delegates other type ids.
 type Parser struct {
